@@ -132,7 +132,7 @@ Proof.
     sf. destruct (is_done (s_jobs s) x); [eapply qs_same; [|exact Q]; reflexivity|].
     apply qs_pushjob. eapply qs_same; [|exact Q]. reflexivity.
   - destruct (release ser (s_jobs s) (s_conns s)) as [cs o]. destruct (getjob (s_jobs s) ser) as [j|]; [|exact Q].
-    destruct (j_drop j && has_waiter ser (s_conns s)); exact Q.
+    destruct (j_drop j && has_waiter ser (s_conns s) && id_is (s_ids s) (j_id j) ser); exact Q.
 Qed.
 
 Lemma qs_run_events : forall es s, QS s -> QS (fst (run_events es s)).
@@ -193,7 +193,7 @@ Proof.
   - exact Q.
   - destruct (is_idle c s); [|exact Q]. destruct (id_lookup (s_ids s) i) as [ser|]; [|exact Q].
     destruct (getjob (s_jobs s) ser) as [j|]; [|exact Q].
-    destruct (j_done j && negb (done_pending ser (s_hub s))); [destruct (j_drop j)|]; exact Q.
+    destruct (j_done j && negb (done_pending ser (s_hub s))); [destruct (j_drop j && id_is (s_ids s) (j_id j) ser)|]; exact Q.
   - exact Q.
   - destruct (id_lookup (s_ids s) i); exact Q.
   - exact Q.
@@ -281,15 +281,14 @@ Proof.
 Qed.
 
 (* C17 min-first: whatever StartPull delivers at once is the (priority, serial)-minimum among the unfinished
-   jobs queued on the requested channels (all channels when none was named) ... *)
-Lemma min_first : forall h c chs j, nodrop h = true ->
-  let s := run h init in
+   jobs queued on the requested channels (all channels when none was named) ... (state form: any state with
+   sorted queues that satisfies the C16 invariant, e.g. a restarted one, C18) *)
+Lemma min_first_state : forall s c chs j, QS s -> Inv s [] [] ->
   In (ODeliver c chs j) (snd (step s (StartPull c chs))) ->
   forall k q p x, q_get (s_queues s) k = Some q -> (chs = [] \/ mem k chs = true) -> In (p, x) q ->
   is_done (s_jobs s) x = false -> key_lt (p, x) (j_prio j, j_serial j) = false.
 Proof.
-  intros h c chs j ND s Hout k q p x Hq He Hin D.
-  pose proof (reachable_qs h) as Q. pose proof (reachable_inv h ND) as I. fold s in Q, I.
+  intros s c chs j Q I Hout k q p x Hq He Hin D.
   pose proof (pop_min_first chs s Q k q p x Hq He Hin D) as M.
   cbn [step] in Hout. destruct (is_idle c s); [|destruct Hout as [H|[]]; discriminate H].
   unfold pop_or_block in Hout. cbv zeta in Hout. fold (try_of chs (preenall s)) in Hout.
@@ -302,15 +301,20 @@ Proof.
   rewrite Ejm in Ej'. inversion Ej'; subst jm. rewrite Hp. rewrite (getjob_serial _ _ _ Ejm). exact M.
 Qed.
 
-(* ... and it blocks only when no unfinished job is queued on any requested channel *)
-Lemma blocks_only_when_empty : forall h c chs,
+Lemma min_first : forall h c chs j,
   let s := run h init in
+  In (ODeliver c chs j) (snd (step s (StartPull c chs))) ->
+  forall k q p x, q_get (s_queues s) k = Some q -> (chs = [] \/ mem k chs = true) -> In (p, x) q ->
+  is_done (s_jobs s) x = false -> key_lt (p, x) (j_prio j, j_serial j) = false.
+Proof. intros h c chs j s. apply min_first_state; [apply reachable_qs|apply reachable_inv]. Qed.
+
+(* ... and it blocks only when no unfinished job is queued on any requested channel *)
+Lemma blocks_only_when_empty_state : forall s c chs, QS s ->
   is_idle c s = true -> In OBlocked (snd (step s (StartPull c chs))) ->
   forall k q p x, q_get (s_queues s) k = Some q -> (chs = [] \/ mem k chs = true) -> In (p, x) q ->
   is_done (s_jobs s) x = true.
 Proof.
-  intros h c chs s EI Hout k q p x Hq He Hin. destruct (is_done (s_jobs s) x) eqn:D; [reflexivity|exfalso].
-  pose proof (reachable_qs h) as Q. fold s in Q.
+  intros s c chs Q EI Hout k q p x Hq He Hin. destruct (is_done (s_jobs s) x) eqn:D; [reflexivity|exfalso].
   pose proof (pop_min_first chs s Q k q p x Hq He Hin D) as M.
   cbn [step] in Hout. rewrite EI in Hout.
   unfold pop_or_block in Hout. cbv zeta in Hout. fold (try_of chs (preenall s)) in Hout.
@@ -318,3 +322,10 @@ Proof.
   destruct (getjob (s_jobs (preenall s)) (snd m)) as [jm|]; [|destruct Hout].
   apply deliver_out in Hout. destruct Hout as (j'&Ho&_). discriminate Ho.
 Qed.
+
+Lemma blocks_only_when_empty : forall h c chs,
+  let s := run h init in
+  is_idle c s = true -> In OBlocked (snd (step s (StartPull c chs))) ->
+  forall k q p x, q_get (s_queues s) k = Some q -> (chs = [] \/ mem k chs = true) -> In (p, x) q ->
+  is_done (s_jobs s) x = true.
+Proof. intros h c chs s. apply blocks_only_when_empty_state. apply reachable_qs. Qed.
